@@ -714,6 +714,19 @@ theorem rb_ptr_history_converts (st : Store) (nodes : List Nat) (hnodes : nodes.
       obtain ⟨st'', head, tail, c1, c2⟩ := convert_then_test h2.toRepr h3 h5.1
       exact ⟨st', r, st'', head, tail, h1, c1, c2⟩
 
+
+/-- END TO END through the pool, for EVERY key list `ks` (any length ≥ 0, any integers, duplicates allowed) and any store:
+    `esl_red_black_doublekey_pool_Create(|ks|)`, the caller's `node->key = k` on the block's records, then
+    `tree = insert(tree, node)` for each: no call fails, and the store lays out — child and parent pointers, distinct records —
+    exactly `Tree.insertAll .nil ks`: ordered, balanced, holding precisely the keys of `ks`; records that existed before the
+    block was created are untouched. (No hypothesis: the statement is its own non-vacuity.) -/
+theorem rb_ptr_pool_history (st : Store) (ks : List Int) :
+    ∃ st' tree' t', insertAllPtr (setKeys (poolCreate st ks.length).1 (List.range' st.size ks.length) ks) none
+        (List.range' st.size ks.length) = some (st', tree') ∧ ReprP st' t' tree' none ∧ t'.ids.Nodup ∧
+      RedBlack.Tree.insertAll .nil ks = some (absTree st' t') ∧ RedBlack.Tree.WF (absTree st' t') ∧
+      (∀ x, x ∈ RedBlack.Tree.toList (absTree st' t') ↔ x ∈ ks) ∧ (∀ j, j < st.size → rd st' j = rd st j) :=
+  pool_history st ks
+
 -- non-vacuity: three fresh records with keys 1, 2, 3 offered in ascending order: the third insert finds a RED parent
 -- (record 1 under the black root 0), `rebalance` rotates (node large of parent, parent large of grandparent) and record 1
 -- becomes the root with children 0 and 2, parent pointers included
